@@ -40,6 +40,14 @@ def cases_for(pid):
             else:
                 out.append({"name": "mutant " + m["name"], "kind": "edit", "spec": {"file": m["file"], "find": m["find"], "replace": m["replace"]},
                             "expect": m["expect"], "rules": m.get("rules", []), "why": m.get("why", "")})
+    # behaviour-preserving refactorings written by independent agents (rename, extract helper, control-flow idiom, named locals,
+    # standard algorithms, defensive additions): every check must stay silent on every one of them
+    rd = os.path.join(VERIF, "refactors")
+    if os.path.isdir(rd):
+        for label in sorted(os.listdir(rd)):
+            pp = os.path.join(rd, label, "patch.diff")
+            if os.path.exists(pp):
+                out.append({"name": "refactoring " + label, "kind": "patch", "spec": pp, "expect": "holds", "rules": []})
     return out
 
 
